@@ -72,7 +72,8 @@ func C02(c *fw.Ctx) {
 				pending[id] = &rendering{m, l, rd}
 				maxMuLock.Unlock()
 				j := renderingJob(id, rd)
-				j.Ops = []string{"json"}
+				// "the catalog says": whatever the caller did with the catalog before it reads it (the exporters walk the same objects)
+				j.Ops = [][]string{{"json"}, {"openapi", "json"}, {"jsonindent", "openapi", "title", "json"}, {"openapiindent", "openapi", "json"}}[k%4]
 				emit(j)
 			}
 		}
